@@ -1,12 +1,14 @@
 (* C11 case checker, evaluated by vm_compute on the files the Go harness writes.
    It must not depend on C11/Obligation.v: cases are evaluated also (above all) when LockTables_ok is broken.
 
-   kind 2 = what the implementation did violates the property: a concurrent run ended in a state that no
-            sequential order of the same calls produces (lost update / non-serial outcome);
+   kind 2 = what the implementation did violates the property: a concurrent run ended in a state (or returned values)
+            that no sequential order of the same calls produces (lost update / non-serial outcome), or a Safe wrapper and
+            the container it wraps disagree on a SEQUENTIAL trace (the wrapped container's method of the same name is
+            the sequential meaning of a wrapper call - the [sem] of the atomicity theorem; a wrapper forwarding to the
+            wrong sibling does not run "the same call");
    kind 1 = the model is out of step with the code: the translator's view of the offending entries differs from
             Coq's, the harness worked from another table than the one compiled here, a callee classified
-            read-only changed the observable state of its container, a Safe wrapper and the container it wraps
-            disagree on a sequential trace.
+            read-only changed the observable state of its container.
    Races, deadlocks and panics are decided outside Coq (race detector, watchdog) and reported by the harness as
    direct violations. *)
 From Coq Require Import List String ZArith Bool.
@@ -35,7 +37,7 @@ Definition check_case (c : case) : nat :=
   | COffenders names => kind_of (list_eqb pair_eqb names coq_offenders) true
   | CTable n k => kind_of (Nat.eqb n (length tables) && Nat.eqb k (length inner)) true
   | CReadOnly k m before after => kind_of (is_ro (k, m) && zlist_eqb before after) true
-  | CDelegate a b => kind_of (zlist_eqb a b) true
+  | CDelegate a b => kind_of true (zlist_eqb a b)
   end.
 
 Definition mismatches (cs : list case) : list (nat * nat) := find_bad check_case cs.
